@@ -68,6 +68,18 @@ pub fn fault_classes() -> Vec<(&'static str, E)> {
         ("division-by-zero", bin("/", E::Int(1), E::Int(0))),
         ("remainder-by-zero", bin("%", E::Int(1), E::Int(0))),
         ("min-div-minus-one", bin("/", E::Int(i32::MIN), E::Int(-1))),
+        // names that WERE declared, in a block that has ended since: as unknown as a name that
+        // never existed (the use sits inside one more block, so it is not at the outermost level)
+        ("out-of-scope-read", E::Block(vec![E::Block(vec![let_("c10gone", E::Int(7)), var("c10gone")]), var("c10gone")])),
+        ("out-of-scope-write", E::Block(vec![E::Block(vec![let_("c10gone2", E::Int(7))]), assign("c10gone2", E::Int(8))])),
+        ("out-of-scope-read-after-if", E::Block(vec![E::If(bx(E::Bool(true)), bx(E::Block(vec![let_("c10gone3", E::Int(7)), E::Null])), Some(bx(E::Null))), var("c10gone3")])),
+        ("out-of-scope-read-after-loop", E::Block(vec![let_("c10once", E::Bool(true)), E::While(bx(var("c10once")), bx(E::Block(vec![let_("c10gone4", E::Int(7)), assign("c10once", E::Bool(false))]))), var("c10gone4")])),
+        // built-ins reached through a parent, called with a surplus argument or with none
+        ("builtin-via-int-parent-arity-plus", mcall(E::Object(Some(bx(E::Int(5))), vec![]), "+", vec![E::Int(100), E::Int(2)])),
+        ("builtin-via-bool-parent-arity-plus", mcall(E::Object(Some(bx(E::Bool(true))), vec![]), "&", vec![E::Bool(true), E::Bool(true)])),
+        ("builtin-via-int-parent-arity-minus", mcall(E::Object(Some(bx(E::Int(5))), vec![]), "-", vec![])),
+        ("builtin-via-array-parent-arity-plus", mcall(E::Object(Some(bx(E::Array(bx(E::Int(2)), bx(E::Int(0))))), vec![]), "get", vec![E::Int(0), E::Int(0)])),
+        ("builtin-via-two-parents-arity-plus", mcall(E::Object(Some(bx(E::Object(Some(bx(E::Int(5))), vec![]))), vec![]), "*", vec![E::Int(3), E::Int(2)])),
     ]
 }
 
